@@ -450,41 +450,23 @@ theorem removeSelf_name : ∀ (l : List Pkg) (name : String), (l.map (·.name)).
 
 /-! ### the theorem -/
 
-theorem resolve_sound (o : Oracle) (upg : Bool) (lock : List Pkg) (self : Pkg) (wf : LockWF lock self)
-    (h : (resolveG true o upg lock self).err = .none) :
-    lockNb (resolveG true o upg lock self).lock self.source = some (self.deps.map (·.pkg)) ∧
-    (∀ e ∈ self.deps, ∃ p ∈ (resolveG true o upg lock self).lock, p.source = e.pkg ∧ VersionOk o e p.version) ∧
-    (∀ m, Reach (lockNb (resolveG true o upg lock self).lock) self.source m →
-      m ∈ (resolveG true o upg lock self).lock.map (·.source)) := by
-  obtain ⟨d, implied, hinit, heq⟩ := resolve_eq_tail h
-  rw [heq] at h ⊢
-  generalize hl1 : (if lock.any (movedEntry self) = true then removeSelf lock self.name else lock) = lock1 at *
+/-- soundness of the checks of `resolveTail` for the lock `lock1` they were built from: if the
+entries of `lock1` that concern the revision are its own (`OwnEntry`), "no error" means that in the
+lock it leaves behind the revision is recorded with its dependencies, every direct dependency
+is a lock package at an acceptable version and every reachable package is a lock package -/
+theorem resolveTail_sound (o : Oracle) (upg : Bool) (self : Pkg) (lock1 : List Pkg) (d : Dag) (implied : List Dep)
+    (hinit : init o upg lock1 = .ok (d, implied)) (hwf : OwnEntry lock1 self)
+    (h : (resolveTail o upg self lock1 d implied).err = .none) :
+    lockNb (resolveTail o upg self lock1 d implied).lock self.source = some (self.deps.map (·.pkg)) ∧
+    (∀ e ∈ self.deps, ∃ p ∈ (resolveTail o upg self lock1 d implied).lock, p.source = e.pkg ∧ VersionOk o e p.version) ∧
+    (∀ m, Reach (lockNb (resolveTail o upg self lock1 d implied).lock) self.source m →
+      m ∈ (resolveTail o upg self lock1 d implied).lock.map (·.source)) := by
   obtain ⟨tree, hlock, hdirect, htrace, himp, hchk⟩ := resolveTail_ok_facts h
   try simp only [] at hlock hdirect htrace hchk
   rw [hlock]
   obtain ⟨hnb, _, _, _⟩ := init_spec hinit
   have nbeq : d.nb = lockNb lock1 := funext hnb
-  -- lock1 ⊆ lock
-  have hsub : ∀ p ∈ lock1, p ∈ lock := by
-    intro p hp
-    rw [← hl1] at hp
-    split at hp
-    · exact removeSelf_sub _ _ _ hp
-    · exact hp
-  -- an entry of lock1 named like self sits under self's source
-  have hnamed : ∀ q ∈ lock1, q.name = self.name → q.source = self.source := by
-    intro q hq hqn
-    by_cases hs : q.source = self.source
-    · exact hs
-    · exfalso
-      have hmoved : lock.any (movedEntry self) = true := by
-        rw [List.any_eq_true]
-        refine ⟨q, hsub q hq, ?_⟩
-        simp [movedEntry, hqn, wf.untyped q (hsub q hq) hqn, hs]
-      rw [hmoved] at hl1
-      simp only [if_true] at hl1
-      rw [← hl1] at hq
-      exact removeSelf_name lock self.name wf.names q hq hqn
+  have hnamed : ∀ q ∈ lock1, q.name = self.name → q.source = self.source := hwf.named
   cases hpe : lock1.any (fun lp => lp.name == self.name) with
   | true =>
     rw [hpe] at hlock hdirect htrace hchk
@@ -503,7 +485,7 @@ theorem resolve_sound (o : Oracle) (upg : Bool) (lock : List Pkg) (self : Pkg) (
         have hq' := List.mem_of_find?_eq_some hf
         have hs' : q'.source = self.source := by simpa using List.find?_some hf
         simp only []
-        rw [(wf.own q' (hsub q' hq') hs').2]
+        rw [(hwf.own q' hq' hs').2]
     have hks : ∀ n, (d.nb n).isSome = true ↔ n ∈ d.keys := d.nb_isSome_iff
     have hlen : d.keys.length = d.length := by unfold Dag.keys; exact List.length_map ..
     have hclosed : Closed d.nb := by rw [nbeq]; exact lockNb_closed lock1
@@ -547,7 +529,7 @@ theorem resolve_sound (o : Oracle) (upg : Bool) (lock : List Pkg) (self : Pkg) (
     -- no entry of lock1 sits under self's source
     have hnosrc : ∀ p ∈ lock1, p.source ≠ self.source := by
       intro p hp hs
-      have hn := (wf.own p (hsub p hp) hs).1
+      have hn := (hwf.own p hp hs).1
       have : lock1.any (fun lp => lp.name == self.name) = true :=
         List.any_eq_true.2 ⟨p, hp, by simp [hn]⟩
       rw [hpe] at this; cases this
@@ -657,5 +639,40 @@ theorem resolve_sound (o : Oracle) (upg : Bool) (lock : List Pkg) (self : Pkg) (
         · exact Or.inl hs'
         · obtain ⟨i, hi1, hi2⟩ := List.mem_map.1 hi
           exact absurd (hi2 ▸ hmt) (himp i hi1)
+
+/-- the lock as refreshed after RemoveSelf, resp. the lock as read when nothing had to be removed,
+holds only the revision's own entries -/
+theorem ownEntry_lastRead {lock : List Pkg} {self : Pkg} (wf : LockWF lock self) :
+    OwnEntry (if lock.any (movedEntry self) = true then removeSelf lock self.name else lock) self := by
+  generalize hl1 : (if lock.any (movedEntry self) = true then removeSelf lock self.name else lock) = lock1
+  have hsub : ∀ p ∈ lock1, p ∈ lock := by
+    intro p hp
+    rw [← hl1] at hp
+    split at hp
+    · exact removeSelf_sub _ _ _ hp
+    · exact hp
+  refine ⟨fun p hp hs => wf.own p (hsub p hp) hs, ?_⟩
+  intro q hq hqn
+  by_cases hs : q.source = self.source
+  · exact hs
+  · exfalso
+    have hmoved : lock.any (movedEntry self) = true := by
+      rw [List.any_eq_true]
+      refine ⟨q, hsub q hq, ?_⟩
+      simp [movedEntry, hqn, wf.untyped q (hsub q hq) hqn, hs]
+    rw [hmoved] at hl1
+    simp only [if_true] at hl1
+    rw [← hl1] at hq
+    exact removeSelf_name lock self.name wf.names q hq hqn
+
+theorem resolve_sound (o : Oracle) (upg : Bool) (lock : List Pkg) (self : Pkg) (wf : LockWF lock self)
+    (h : (resolveG true o upg lock self).err = .none) :
+    lockNb (resolveG true o upg lock self).lock self.source = some (self.deps.map (·.pkg)) ∧
+    (∀ e ∈ self.deps, ∃ p ∈ (resolveG true o upg lock self).lock, p.source = e.pkg ∧ VersionOk o e p.version) ∧
+    (∀ m, Reach (lockNb (resolveG true o upg lock self).lock) self.source m →
+      m ∈ (resolveG true o upg lock self).lock.map (·.source)) := by
+  obtain ⟨d, implied, hinit, heq⟩ := resolve_eq_tail h
+  rw [heq] at h ⊢
+  exact resolveTail_sound o upg self _ d implied hinit (ownEntry_lastRead wf) h
 
 end Xp.C17
